@@ -71,15 +71,25 @@ theorem unseeded_salt_is_action (c : Cfg) (path gaid : Bytes) (h : c.seed = []) 
 /-- **unseeded: every garble input reaches the hash pre-image injectively.**  Go action IDs and the garble binary's
 content ID are fixed-width (`buildIDHashLength` bytes); production builds have no test obfuscator override.  Then
 equal pre-images of `addGarbleToHash` force equal action ID (source, tags, GOOS/GOARCH, Go version — cmd/go's
-contract), equal garble binary, equal -literals, -tiny, -seed, control-flow setting and equal GOGARBLE.
+contract), equal garble binary, equal -literals, -tiny, -seed, control-flow setting, equal GOGARBLE and, under
+-literals, an equal set of -ldflags=-X targets (since the `fix:` commit that hashes them).
 (Before the `fix:` commit that hashes GOGARBLE last this statement was false — GOGARBLE="mod, -tiny" collided with
 GOGARBLE="mod," -tiny — and the check reported that history as a stale build, DESIGN.md 6.7.) -/
+theorem map_prefix_inj : ∀ (l1 l2 : List Bytes), (l1.map fun n => [45, 88, 61] ++ n) = (l2.map fun n => [45, 88, 61] ++ n) → l1 = l2
+  | [], [], _ => rfl
+  | [], _ :: _, h => by simp at h
+  | _ :: _, [], h => by simp at h
+  | a :: l1, b :: l2, h => by
+    simp only [List.map_cons, List.cons.injEq] at h
+    rw [List.append_cancel_left h.1, map_prefix_inj l1 l2 h.2]
+
 theorem unseeded_preimage_injective (c1 c2 : Cfg) (a1 a2 : Bytes)
     (ha : a1.length = a2.length) (hb : c1.binaryID.length = c2.binaryID.length)
-    (ht1 : c1.testObf = []) (ht2 : c2.testObf = [])
+    (ht1 : c1.testObf = []) (ht2 : c2.testObf = []) (hx1 : XOK c1) (hx2 : XOK c2)
     (h : garblePreImage c1 a1 = garblePreImage c2 a2) :
     a1 = a2 ∧ c1.binaryID = c2.binaryID ∧ c1.literals = c2.literals ∧ c1.tiny = c2.tiny ∧
-      c1.seed = c2.seed ∧ c1.ctrlflow = c2.ctrlflow ∧ c1.gogarble = c2.gogarble := by
+      c1.seed = c2.seed ∧ c1.ctrlflow = c2.ctrlflow ∧ c1.gogarble = c2.gogarble ∧
+      (c1.literals = true → c1.xTargets = c2.xTargets) := by
   unfold garblePreImage at h
   simp only [List.append_assoc] at h
   have h1 := List.append_inj h ha
@@ -87,28 +97,38 @@ theorem unseeded_preimage_injective (c1 c2 : Cfg) (a1 a2 : Bytes)
   have h3 := h2.2
   rw [appendFlags_tokens c1 ht1, appendFlags_tokens c2 ht2, flat_render, flat_render] at h3
   simp only [List.cons.injEq, true_and] at h3
-  have r := render_inj _ _ _ _ (tokens_good c1) (tokens_good c2) h3
+  have r := render_inj _ _ _ _ (tokens_good c1 hx1) (tokens_good c2 hx2) h3
+  have f1 := filter_split c1
+  have f2 := filter_split c2
+  rw [r.1] at f1
+  have hbase : baseTokens c1 = baseTokens c2 := f1.1.symm.trans f2.1
+  have hxs : xTokens c1 = xTokens c2 := f1.2.symm.trans f2.2
   have d1 := tokens_decode c1
   have d2 := tokens_decode c2
-  rw [r.1] at d1
-  refine ⟨h1.1, h2.1, ?_, ?_, ?_, ?_, r.2⟩
-  · rw [← d1.1, ← d2.1]
+  rw [hbase] at d1
+  have hlit : c1.literals = c2.literals := by rw [← d1.1, ← d2.1]
+  refine ⟨h1.1, h2.1, hlit, ?_, ?_, ?_, r.2, ?_⟩
   · rw [← d1.2.1, ← d2.2.1]
   · have hs := d1.2.2.2.symm.trans d2.2.2.2
     cases e1 : c1.seed.isEmpty <;> cases e2 : c2.seed.isEmpty <;> simp [e1, e2] at hs
     · exact GV.Base64.encodeStd_inj _ _ hs
     · rw [List.isEmpty_iff.mp e1, List.isEmpty_iff.mp e2]
   · rw [← d1.2.2.1, ← d2.2.2.1]
+  · intro hl
+    have hl2 : c2.literals = true := hlit ▸ hl
+    unfold xTokens at hxs
+    simp only [hl, hl2, if_true] at hxs
+    exact map_prefix_inj _ _ hxs
 
 /-- corollary for package-scoped names: a different garble action pre-image whenever any single input differs -/
 theorem unseeded_any_input_changes_preimage (c1 c2 : Cfg) (a1 a2 : Bytes)
     (ha : a1.length = a2.length) (hb : c1.binaryID.length = c2.binaryID.length)
-    (ht1 : c1.testObf = []) (ht2 : c2.testObf = [])
+    (ht1 : c1.testObf = []) (ht2 : c2.testObf = []) (hx1 : XOK c1) (hx2 : XOK c2)
     (hd : a1 ≠ a2 ∨ c1.binaryID ≠ c2.binaryID ∨ c1.literals ≠ c2.literals ∨ c1.tiny ≠ c2.tiny ∨
           c1.seed ≠ c2.seed ∨ c1.ctrlflow ≠ c2.ctrlflow ∨ c1.gogarble ≠ c2.gogarble) :
     garblePreImage c1 a1 ≠ garblePreImage c2 a2 := by
   intro h
-  have := unseeded_preimage_injective c1 c2 a1 a2 ha hb ht1 ht2 h
+  have := unseeded_preimage_injective c1 c2 a1 a2 ha hb ht1 ht2 hx1 hx2 h
   rcases hd with d | d | d | d | d | d | d
   · exact d this.1
   · exact d this.2.1
@@ -116,7 +136,7 @@ theorem unseeded_any_input_changes_preimage (c1 c2 : Cfg) (a1 a2 : Bytes)
   · exact d this.2.2.2.1
   · exact d this.2.2.2.2.1
   · exact d this.2.2.2.2.2.1
-  · exact d this.2.2.2.2.2.2
+  · exact d this.2.2.2.2.2.2.1
 
 /-- unseeded field names: the salt pre-image is `base32(structHash) ++ binaryID ++ flags ++ GOGARBLE` — it changes
 with the garble flags, GOGARBLE and the garble version, and does not mention the package or its action ID -/
